@@ -455,7 +455,7 @@ def run(model, tier="quick"):
                   "withdraw: pro-rata amounts less the withdrawal fee (negative-impact factor)",
                   opaque=["getTokenAmountsFromGM"])
     V = "GmxV2Market."
-    effects_check(res, model, V + "deposit", REF_V2_DEPOSIT, "v2 deposit ledger", FX, opaque=["get_mint_amount"])
+    effects_check(res, model, V + "deposit", REF_V2_DEPOSIT, "v2 deposit ledger: both legs are paid BEFORE the GM is credited (a rejected deposit mints nothing)", FX, opaque=["get_mint_amount"], ordered=True)
     effects_check(res, model, V + "withdraw", REF_V2_WITHDRAW, "v2 withdraw ledger: rejected when negative or above the holding",
                   FX, opaque=["getOutputAmount"])
     formula_check(res, model, V + "get_market_balance", REF_V2_BALANCE, "v2 value = shares * pool value / supply",
